@@ -62,8 +62,8 @@ func buildLineOk(ctx *build.Context, line string) (ok bool) {
 	if len(line) < 7 || line[:7] != "+build " {
 		return true
 	}
-	// In line, evaluate the OR of space-separated options
-	options := strings.Split(strings.TrimSpace(line[6:]), " ")
+	// In line, evaluate the OR of options separated by spaces or tabs
+	options := strings.Fields(line[6:])
 	for _, o := range options {
 		if ok = buildOptionOk(ctx, o); ok {
 			break
@@ -86,6 +86,10 @@ func buildOptionOk(ctx *build.Context, tag string) bool {
 // buildTagOk returns true if a build tag matches, false otherwise
 // if first character is !, result is negated.
 func buildTagOk(ctx *build.Context, s string) (r bool) {
+	if s == "" || s == "!" {
+		// An empty tag is never satisfied, as in go/build.
+		return false
+	}
 	not := s[0] == '!'
 	if not {
 		s = s[1:]
